@@ -16,6 +16,7 @@ import (
 	"berty.tech/go-orbit-db/accesscontroller"
 	"berty.tech/go-orbit-db/iface"
 	"berty.tech/go-orbit-db/stores"
+	"berty.tech/go-orbit-db/stores/basestore"
 	"berty.tech/go-orbit-db/stores/operation"
 	cid "github.com/ipfs/go-cid"
 	"github.com/libp2p/go-libp2p/p2p/host/eventbus"
@@ -83,6 +84,7 @@ type hostileOpts struct {
 	WriteList     []int // nil: authors (+victim); explicit peer indices otherwise; -1 = "*"
 	DefaultAC     bool  // no access-controller options at creation: creator only
 	ACType        string // "" (ipfs) | "simple"
+	PriorLegit    bool  // (with SharedOpts) the attacker first writes a legitimate entry to the wildcard sibling and the victim replicates it
 	SharedOpts    bool  // the victim first opens a sibling database with the wildcard list, then this one, with the same options value
 }
 
@@ -118,9 +120,44 @@ func newHostileEnv(ctx context.Context, o hostileOpts) (*hostileEnv, error) {
 			cl.Close()
 			return nil, err
 		}
-		if _, err := cl.W.Peers[env.V].DB.Open(ctx, pub.Address().String(), vopts); err != nil {
+		vpub, err := cl.W.Peers[env.V].DB.Open(ctx, pub.Address().String(), vopts)
+		if err != nil {
 			cl.Close()
 			return nil, err
+		}
+		if o.PriorLegit {
+			// the attacker is an ordinary, legitimate writer of the public sibling, and the victim has seen it there
+			if err := vpub.Load(ctx, -1); err != nil {
+				cl.Close()
+				return nil, err
+			}
+			xpub, err := cl.W.Peers[env.X].DB.Open(ctx, pub.Address().String(), &orbitdb.CreateDBOptions{Replicate: &no})
+			if err != nil {
+				cl.Close()
+				return nil, err
+			}
+			if err := xpub.Load(ctx, -1); err != nil {
+				cl.Close()
+				return nil, err
+			}
+			h, err := writeReturningHash(ctx, xpub, o.Type, 0, 3, 4242)
+			if err != nil {
+				cl.Close()
+				return nil, fmt.Errorf("the attacker cannot write to the wildcard sibling: %v", err)
+			}
+			hs, err := cloneHeads(world.Heads(xpub))
+			if err != nil {
+				cl.Close()
+				return nil, err
+			}
+			if err := vpub.Sync(ctx, hs); err != nil {
+				cl.Close()
+				return nil, err
+			}
+			if !world.WaitFor(func() bool { return world.Has(vpub, h) && cl.W.Quiescent([]iface.Store{vpub}, nil) }, claimTimeout) {
+				cl.Close()
+				return nil, world.ErrInconclusive
+			}
 		}
 	}
 	s, err := cl.W.Peers[env.V].DB.Open(ctx, cl.Addr, cl.OpenOpts(vopts))
@@ -303,6 +340,40 @@ func (env *hostileEnv) deliver(ctx context.Context, route string, heads []*entry
 			return fmt.Errorf("victim has no direct channel")
 		}
 		return nil
+	case "loadmore":
+		// the application hands the store entries known by their address only (LoadMoreFrom)
+		var byHash []ipfslog.Entry
+		for _, h := range heads {
+			byHash = append(byHash, &entry.Entry{Hash: h.Hash})
+		}
+		world.LoadMoreFromAsync(ctx, env.victim(), byHash)
+		return nil
+	case "snapqueue":
+		// the addresses sit in the replication queue recorded with a snapshot (a snapshot taken while they
+		// were being fetched); loading that snapshot resumes the queue
+		v := env.victim()
+		if v.OpLog().Len() == 0 {
+			return env.deliver(ctx, "loadmore", heads)
+		}
+		if _, err := basestore.SaveSnapshot(ctx, v); err != nil {
+			return env.deliver(ctx, "loadmore", heads)
+		}
+		var q []cid.Cid
+		for _, h := range heads {
+			q = append(q, h.Hash)
+		}
+		qb, err := json.Marshal(q)
+		if err != nil {
+			return err
+		}
+		cache := cl.W.Peers[env.V].Disk.Store(world.CachePath("/verif-disk", v.Address()))
+		if err := cache.Put(ctx, dsKey("queue"), qb); err != nil {
+			return err
+		}
+		if err := v.LoadFromSnapshot(ctx); err != nil {
+			return fmt.Errorf("LoadFromSnapshot with a recorded queue failed: %v", err)
+		}
+		return nil
 	}
 	return fmt.Errorf("unknown route %q", route)
 }
@@ -417,6 +488,26 @@ func (env *hostileEnv) victimClean() error {
 		}
 	}
 	return nil
+}
+
+// victimRestartClean closes the victim's instance, starts a new one on the same disk, reopens the
+// database and loads it: what the replica accepted before must still load (no entry it refused may
+// stand in the way), everything it held is there again, and it is still clean.
+func (env *hostileEnv) victimRestartClean(ctx context.Context) error {
+	held := hashSetOf(env.victim())
+	if err := env.cl.Reopen(ctx, env.V); err != nil {
+		return fmt.Errorf("after a restart the replica cannot load its log any more (it held %d entries): %v", len(held), err)
+	}
+	if !env.cl.W.WaitQuiescent([]iface.Store{env.victim()}, nil, claimTimeout) {
+		return world.ErrInconclusive
+	}
+	have := hashSetOf(env.victim())
+	for h := range held {
+		if !have[h] {
+			return fmt.Errorf("after a restart and Load(-1) the replica holds %d of the %d entries it held before (%s is missing)", countIn(have, held), len(held), short(h))
+		}
+	}
+	return env.victimClean()
 }
 
 const hostileMarker = "HOSTILE"
